@@ -414,8 +414,8 @@ def agree(case, impl, model):
 def distribution(cs):
     d = {}
     for c in cs:
-        t = c["tags"]
-        k = "%s/n%d/must%d/fwd-%s" % (t["src"], t["n"], t["must"], t["fwd"]) + ("/k%d" % t["k"] if "k" in t else "")
+        t = c.get("tags") or {}
+        k = "%s/n%d/must%d/fwd-%s" % (t.get("src", "corpus"), t.get("n", 0), t.get("must", 0), t.get("fwd", "none")) + ("/k%d" % t["k"] if "k" in t else "")
         d[k] = d.get(k, 0) + 1
     return d
 
